@@ -527,10 +527,24 @@ def rule_rec_guard(prog: Program, report: Report) -> None:
 
 
 # ----------------------------------------------------------------------- RT4
-RT4_EXEMPT = {
-    ("prosemirror/model/diff.py::find_diff_start", "inner"): "a reported inner position is >= 1: the recursive scan starts at pos + 1 (enforced by a Val entry of the gate table)",
-    ("prosemirror/transform/map.py::Mapping.__init__", "from_"): "`from_ or 0`: 0 and None both mean 0",
-}
+def _rt4_audited(fn, a: ast.expr, site: ast.AST) -> str | None:
+    """Audited truthiness tests of Optional[int] values, recognised by what the value *is*
+    (not by the name of a local):
+    - `x or 0`: 0 and None both become 0;
+    - the result of the recursive `find_diff_start(.., pos + 1)` scan: a reported inner position is
+      >= 1 because the recursion starts one past `pos` (enforced by a Val entry of the gate table)."""
+    from ..norm import Resolver
+
+    if isinstance(site, ast.BoolOp) and isinstance(site.op, ast.Or) and isinstance(site.values[-1], ast.Constant) and site.values[-1].value == 0 and a in site.values[:-1]:
+        return "`x or 0`: 0 and None both mean 0"
+    v = a.value if isinstance(a, ast.NamedExpr) else a
+    if isinstance(v, ast.Name):
+        v = Resolver(fn.node).expr(v, 1)
+        if isinstance(v, ast.NamedExpr):
+            v = v.value
+    if fn.key == "prosemirror/model/diff.py::find_diff_start" and isinstance(v, ast.Call) and isinstance(v.func, ast.Name) and v.func.id == "find_diff_start" and len(v.args) == 3 and " ".join(src(v.args[2]).split()) in ("pos + 1", "1 + pos"):
+        return "a reported inner position is >= 1: the recursive scan starts at pos + 1"
+    return None
 
 
 def rule_rt4(prog: Program, report: Report) -> None:
@@ -546,9 +560,9 @@ def rule_rt4(prog: Program, report: Report) -> None:
             if names != {"builtins.int", "None"}:
                 continue
             n += 1
-            key = (fn.key, src(a))
-            if key in RT4_EXEMPT:
-                report.ob("RT4", fn.key, f"`{src(a)}` (int | None) tested by truthiness: audited - {RT4_EXEMPT[key]}")
+            why_ok = _rt4_audited(fn, a, site)
+            if why_ok is not None:
+                report.ob("RT4", fn.key, f"`{src(a)[:50]}` (int | None) tested by truthiness: audited - {why_ok}")
                 continue
             report.violate("RT4", fn, a, f"`{src(a)[:50]}` of type int | None tested by truthiness", f"`{src(a)[:50]}` may be the integer 0 (position 0, index 0, depth 0), which the test treats like None (absent / deleted); compare with None instead", what="Optional[int] values are compared with None")
     report.count("RT4 truthiness tests of Optional[int] values", n)
